@@ -4,6 +4,10 @@ import json, os, sys
 here = os.path.dirname(os.path.dirname(os.path.abspath(__file__)))
 
 CHECKS = {
+ "C19": dict(level="model_checking", design="4/C19, 2/E4",
+   technique="stateless model checking of thread interleavings on the real code: cooperative scheduler + preemption-bounded DFS over an instrumented overlay build (scheduling points at conflict-relevant package-level state, aliases and sync operations; deterministic sync.Pool shim with double-hand-out detection); complemented by a free-running -race pass",
+   text="Every schedule with at most 1 (quick) / 2 (thorough) preemptions of 410 two- and three-thread scenarios over 26 library operations on private values (plus shared read-only use of one decoded message) is executed on the instrumented library; each thread's result must equal its sequential result, no panic, no deadlock, no pool hazard; replay determinism is asserted per scenario, every scenario starts in a fresh process. The race detector pass (2 and 64 goroutines, same bodies) is sampling and labelled as such.",
+   note="Scheduling points are derived syntactically from the current tree (package-level variables with a possible write site, their intra-procedural aliases, sync operations). Heap state shared through other channels is only covered by the race pass."),
  "C12": dict(level="exploration", design="4/C12",
    technique="complete enumeration of the small identity domains (all MCC x MNC, all 2^24 AMF ids, all routing indicators) + structured alphabets for TMSI/MSIN/IMEI, against reference coders written from the TS 24.501/24.008/23.003 figures, round trips in both directions",
    text="nasConvert and the nasType.MobileIdentity5GS text getters are compared with refconv over complete or per-position-exhaustive domains; invalid text must give an error from the WithError variants.",
